@@ -132,6 +132,8 @@ func c14Child(f []string) []string {
 		return []string{"ok"}
 	case "save":
 		return c14Save(f[1], f[2], f[3], f[4])
+	case "race":
+		return c14Race(f[1], f[2], f[3], f[4], f[5])
 	default:
 		panic("unknown command " + f[0])
 	}
@@ -212,12 +214,47 @@ func c14Save(variant, sizeS, seedS, probe string) []string {
 
 	after, rerr := os.ReadFile(dest)
 	finalOK := err == nil && rerr == nil && bytes.Equal(after, expected)
-	if probe == "faildir" || vc14.FsizeOf(probe) >= 0 {
+	if probe == "faildir" || vc14.FsizeOf(probe) >= 0 || strings.Contains(probe, "+inj") {
 		// The save cannot succeed; it must say so and leave the file alone.
 		finalOK = err != nil && vc14.FileSum(dest) == oldSum
 	}
 
 	return []string{vutil.B(err == nil), strconv.Itoa(len(after)), vutil.B(finalOK), oldSum, vc14.FileSum(dest)}
+}
+
+// c14Race stores two different lease sets at the same time from two goroutines
+// (dbStore is reached from the v4 and the v6 server and from the HTTP API
+// without a common lock).  Answer: nCommitted finalOK oldSum sumA sumB.
+func c14Race(variant, sizeA, seedA, sizeB, seedB string) []string {
+	dest := c14c.dest
+	oldSum := vc14.FileSum(dest)
+	mk := func(sizeS, seedS string) ([]*dbLease, []byte) {
+		size, _ := strconv.Atoi(sizeS)
+		seed, _ := strconv.ParseUint(seedS, 10, 64)
+		l := c14Leases(size, seed, false)
+
+		return l, c14Expected(l)
+	}
+	la, ea := mk(sizeA, seedA)
+	lb, eb := mk(sizeB, seedB)
+	var errA, errB error
+	vc14.Window(func() {
+		done := make(chan struct{})
+		go func() { errA = writeDB(dest, la); close(done) }()
+		errB = writeDB(dest, lb)
+		<-done
+	})
+	n := 0
+	if errA == nil {
+		n++
+	}
+	if errB == nil {
+		n++
+	}
+	after, rerr := os.ReadFile(dest)
+	finalOK := rerr == nil && n == 2 && (bytes.Equal(after, ea) || bytes.Equal(after, eb))
+
+	return []string{strconv.Itoa(n), vutil.B(finalOK), oldSum, vc14.Sum(ea), vc14.Sum(eb)}
 }
 
 // ---------------------------------------------------------------- parent
@@ -279,6 +316,20 @@ func (p *c14Parent) gen(r *rand.Rand, emit vutil.Emit) {
 		for s := 0; s < saves; s++ {
 			size := c14Size(r)
 			seed := strconv.FormatUint(r.Uint64N(1<<40), 10)
+			if r.IntN(12) == 0 && vc14.Injected() == "" {
+				// Two saves of the same path at once.
+				sb := c14Size(r)
+				if size > 1<<20 {
+					size = 1 << 20
+				}
+				if sb > 1<<20 {
+					sb = 1 << 20
+				}
+				emit("C14.race", "writedb", strconv.Itoa(size), seed, strconv.Itoa(sb),
+					strconv.FormatUint(r.Uint64N(1<<40), 10), mode)
+
+				continue
+			}
 			// The variant first: it bounds the size the write fault is drawn from.
 			v := r.IntN(10)
 			switch {
@@ -309,6 +360,14 @@ func (p *c14Parent) gen(r *rand.Rand, emit vutil.Emit) {
 			}
 			probe := vc14.Probe(mode, fault)
 			failing := fault == "faildir" || strings.HasPrefix(fault, "fsize=")
+			if vc14.Injected() == "fsync" {
+				// Every fsync fails with EIO in this run: no save can succeed, and
+				// renameio's deferred Cleanup must remove the temporary file.
+				failing = true
+				if !strings.Contains(probe, "+") && fault != "faildir" {
+					probe += "+injfsync"
+				}
+			}
 			commit := vutil.B(!failing)
 			switch {
 			case v < 5:
@@ -326,7 +385,11 @@ func (p *c14Parent) gen(r *rand.Rand, emit vutil.Emit) {
 					probe = mode
 				}
 				emit("C14.put", vutil.Hex("W/"+dbFilename), strconv.Itoa(size), seed)
-				emit("C14.save", "migrate", strconv.Itoa(size), seed, "1", "1", probe)
+				if vc14.Injected() == "fsync" {
+					emit("C14.save", "migrate", strconv.Itoa(size), seed, "0", "0", mode+"+injfsync")
+				} else {
+					emit("C14.save", "migrate", strconv.Itoa(size), seed, "1", "1", probe)
+				}
 			}
 		}
 	}
@@ -388,7 +451,7 @@ func (p *c14Parent) run(f []string) []string {
 		rd := vc14.StartReader(p.dest)
 		resp, events, err := p.child.Do("save", f[1], f[2], f[3], f[6])
 		if err != nil || len(resp) != 5 {
-			rd.Stop("", "")
+			rd.Stop()
 			if err != nil {
 				panic(err)
 			}
@@ -397,6 +460,25 @@ func (p *c14Parent) run(f []string) []string {
 		}
 		reads, bad := rd.Stop(resp[3], resp[4])
 		out := []string{resp[0], resp[1], resp[2], strconv.Itoa(reads), strconv.Itoa(bad)}
+		names := p.child.ListFiles(p.w, filepath.Join(p.w, "data"), p.tm)
+		out = append(out, strconv.Itoa(len(names)))
+		out = append(out, names...)
+		out = append(out, strconv.Itoa(len(events)))
+
+		return append(out, events...)
+	case "C14.race":
+		rd := vc14.StartReader(p.dest)
+		resp, events, err := p.child.Do("race", f[1], f[2], f[3], f[4], f[5])
+		if err != nil || len(resp) != 5 {
+			rd.Stop()
+			if err != nil {
+				panic(err)
+			}
+
+			return resp
+		}
+		reads, bad := rd.Stop(resp[2], resp[3], resp[4])
+		out := []string{resp[0], resp[1], strconv.Itoa(reads), strconv.Itoa(bad)}
 		names := p.child.ListFiles(p.w, filepath.Join(p.w, "data"), p.tm)
 		out = append(out, strconv.Itoa(len(names)))
 		out = append(out, names...)
